@@ -71,6 +71,9 @@ type UDPBackend struct {
 }
 
 type TCPBackend struct {
+	// protects conn: Send is called from the proxy message loop while Close
+	// is called when the resolver removes the backend
+	sync.Mutex
 	localAddr             string
 	backendAddr           string
 	conn                  net.Conn
@@ -193,6 +196,9 @@ func (t *TCPBackend) Send(msg *Message) error {
 		return err
 	}
 
+	t.Lock()
+	defer t.Unlock()
+
 	zap.L().Info("send message to TCP backend with conn", zap.String("backendAddr", t.backendAddr), zap.Any("conn", t.conn))
 
 	for i := 0; i < 2; i++ {
@@ -217,6 +223,7 @@ func (t *TCPBackend) Send(msg *Message) error {
 	return fmt.Errorf("fail to send message to backend %s", t.backendAddr)
 }
 
+// connect must be called with the lock held
 func (t *TCPBackend) connect() error {
 	conn, err := net.Dial("tcp", t.backendAddr)
 	if err != nil {
@@ -235,6 +242,9 @@ func (t *TCPBackend) GetAddress() string {
 }
 
 func (t *TCPBackend) Close() {
+	t.Lock()
+	defer t.Unlock()
+
 	if t.conn != nil {
 		t.conn.Close()
 	}
